@@ -6,7 +6,7 @@ d = os.path.abspath(sys.argv[1])
 env = dict(os.environ, GOFLAGS="-mod=mod", GOPROXY="off", GOSUMDB="off", GOTOOLCHAIN="local")
 meta = json.load(open(d + "/meta.json"))
 cmd = meta["demo_cmd"]
-dest = re.search(r"cp demo_test.go (?:<[^>]+>/)?(\S+)", cmd).group(1)
+dest = re.search(r"cp (?:\S*/)?demo_test.go (?:<[^>]+>/)?(\S+)", cmd).group(1)
 gotest = cmd[cmd.index("go test"):]
 gotest = re.sub(r"<[^>]+>/", "", gotest)
 base = json.load(open("/root/.vp/BASELINE.json"))
@@ -40,6 +40,7 @@ try:
     missing = [t for t in base["stable_pass"] if t not in passed]
     res["stable_tests_pass"] = len(missing) == 0
     res["stable_missing"] = missing[:10]
+    os.makedirs(os.path.dirname(os.path.join(wt, dest)), exist_ok=True)
     shutil.copy(d + "/demo_test.go", os.path.join(wt, dest))
     r = sh(gotest + " 2>&1 | tail -15", cwd=wt, timeout=900)
     out1 = r.stdout
